@@ -521,6 +521,9 @@ def run_seed(seed, profile=None):
             distinct.add((st["op"], cls, "include" in d, "exclude" in d, bool(ev.get("returned")),
                           st.get("glyphset"), corpusworlds.describe(scn["worlds"][st["world"]])))
     out["stats"]["distinct"] = sorted(distinct, key=repr)
+    out["scenario_digest"] = gen07._digest(scn)
+    out["log_digest"] = gen07._digest([[e.get("op"), e.get("outcome"), e.get("returned"), e.get("fired"),
+                                        e.get("violations")] for e in res["events"]])
     if seed % 53 == 0:
         out["sample"] = {"seed": seed, "filters": scn["filters"], "steps": scn["steps"],
                          "worlds": [corpusworlds.describe(s) for s in scn["worlds"]],
